@@ -66,10 +66,16 @@ def main():
             for which in case['spaces']:
                 ss = coal.lineage_counting_state_space if which == 'lc' else coal.block_counting_state_space
                 dumps = []
-                for t in times:
+                order = list(times)
+                if case.get('k_first'):
+                    # the states are enumerated (ss.k) while no rate matrix exists yet, then the epochs are visited LAST FIRST:
+                    # the first rate matrix ever read belongs to another epoch than the one the states were enumerated in
+                    _ = ss.k
+                    order = order[::-1]
+                for t in order:
                     ss.update_epoch(coal.demography.get_epoch(t))
                     dumps.append(space_dump(ss, coal, case.get('rewards_' + which, [])))
-                r[which] = dumps
+                r[which] = dumps[::-1] if case.get('k_first') else dumps
         except Exception as e:
             r['error'] = type(e).__name__ + ': ' + str(e)[:300]
         out.append(r)
